@@ -544,6 +544,16 @@ func gamma_incomplete_imp(a, x float64, normalised, invert bool) float64 {
 
   result := 0.0
 
+  if x == 0.0 {
+    // P(a,0) = 0, Q(a,0) = 1, lower = 0, upper = Gamma(a)
+    if !invert {
+      return 0.0
+    } else if normalised {
+      return 1.0
+    } else {
+      return math.Gamma(a)
+    }
+  }
   if(int(a) >= MaxFactorial && !normalised) {
     //
     // When we're computing the non-normalized incomplete gamma
@@ -832,6 +842,16 @@ func gamma_p_derivative_imp(a, x float64) float64 {
 }
 
 func gamma_p_second_derivative_imp(a, x float64) float64 {
+  if x == 0.0 && a > 0.0 {
+    // limit of x^(a-2) exp(-x) ((a-1) - x) / Gamma(a) for x -> 0
+    switch {
+    case a >  2.0: return 0.0
+    case a == 2.0: return 1.0
+    case a >  1.0: return math.Inf(1)
+    case a == 1.0: return -1.0
+    default      : return math.Inf(-1)
+    }
+  }
   t := gamma_p_derivative_imp(a, x)
   return (a-1.0)*t/x - t
 }
